@@ -560,9 +560,7 @@ func gen(r *prng.R, f proto.Flags, emit func(proto.Case)) {
 	emit(proto.Case{ID: "pm1", Ops: []string{"pcfg quota=1 winsec=1 size=1 ttlsec=1 t0=1500000000", "preq id=0 key=0 p=0",
 		"pburst k=2 rounds=2", "preq id=0 key=0 p=0", "preq id=1 key=0 p=9", "preq id=2 key=0", "ptick", "cfg quota=1 win=5 size=1 t0=7", "roll",
 		"ptick d=1000000", "preq id=3 key=0 p=1"}})
-	for k := 0; k < nb*f.Budget; k++ {
-		emit(proto.Case{ID: fmt.Sprintf("pb%d", k), Ops: genPluginBurst(r.Fork(), rounds)})
-	}
+	rb := r.Fork() // burst cases run LAST: a queue they leave stuck leaks goroutines that would slow every later case down
 	for k := 0; k < ns*f.Budget; k++ {
 		rr := r.Fork()
 		emit(proto.Case{ID: fmt.Sprintf("ps%d", k), Ops: genPluginSeq(rr, rr.Range(2, 14))})
@@ -595,5 +593,8 @@ func gen(r *prng.R, f proto.Flags, emit func(proto.Case)) {
 		rr := r.Fork()
 		style := k % 4
 		emit(proto.Case{ID: fmt.Sprintf("w%d-s%d", k, style), Ops: genWalk(rr, style, rr.Range(3, maxReqs), rr.Range(10, maxOps))})
+	}
+	for k := 0; k < nb*f.Budget; k++ {
+		emit(proto.Case{ID: fmt.Sprintf("pb%d", k), Ops: genPluginBurst(rb.Fork(), rounds)})
 	}
 }
